@@ -233,6 +233,42 @@ pub fn vec_eq<T: PartialEq>(a: &Vec<T>, b: &Vec<T>) -> bool {
     true
 }
 
+pub fn vec_extend<T, I: IntoIterator<Item = T>>(v: &mut Vec<T>, it: I) {
+    let mut it = it.into_iter();
+    while let Some(x) = it.next() { v.push(x); }
+}
+pub fn vec_is_empty<T>(v: &Vec<T>) -> bool { v.len() == 0 }
+pub fn vec_contains<T: PartialEq>(v: &Vec<T>, x: &T) -> bool {
+    let mut i = 0;
+    while i < v.len() { if v[i] == *x { return true; } i += 1; }
+    false
+}
+pub fn vec_first<T>(v: &Vec<T>) -> Option<&T> { if v.len() == 0 { None } else { Some(&v[0]) } }
+pub fn vec_last<T>(v: &Vec<T>) -> Option<&T> { if v.len() == 0 { None } else { Some(&v[v.len() - 1]) } }
+pub fn vec_truncate<T>(v: &mut Vec<T>, n: usize) { while v.len() > n { v.pop(); } }
+pub fn vec_reverse<T: Clone>(v: &mut Vec<T>) {
+    let n = v.len();
+    let mut i = 0;
+    while i < n / 2 { let a = v[i].clone(); let b = v[n - 1 - i].clone(); v[i] = b; v[n - 1 - i] = a; i += 1; }
+}
+pub struct VecIntoIter<T> { v: Vec<T>, i: usize }
+pub fn vec_into_iter<T: Clone>(v: Vec<T>) -> VecIntoIter<T> { VecIntoIter { v, i: 0 } }
+impl<T: Clone> Iterator for VecIntoIter<T> {
+    type Item = T;
+    fn next(&mut self) -> Option<T> { if self.i < self.v.len() { let x = self.v[self.i].clone(); self.i += 1; Some(x) } else { None } }
+}
+impl<T: Clone> DoubleEndedIterator for VecIntoIter<T> {
+    fn next_back(&mut self) -> Option<T> { if self.i < self.v.len() { self.v.pop() } else { None } }
+}
+pub fn iter_collect_vec<I: Iterator>(mut it: I) -> Vec<I::Item> {
+    let mut v = Vec::new();
+    while let Some(x) = it.next() { v.push(x); }
+    v
+}
+
+// ---------------------------------------------------------------- dropping a value (C08: dropping the arena)
+pub fn drop_value<T>(_v: T) {}
+
 // ---------------------------------------------------------------- fmt helper (pretty printer)
 pub fn write_chunks<W: core::fmt::Write>(w: &mut W, chunks: &[&str]) -> core::fmt::Result {
     let mut i = 0;
